@@ -40,7 +40,8 @@ CFG = dict(
     rule="2 corpus cases (minimal profile-pass witness, iptables and nftables) + generated endpoints: 0-4 tiers (default action Deny / Pass / unset) x 0-12 policies per tier (GNP, NP, KNP and the three staged "
          "kinds; 22% of cases have tiers of 5-12 policies so that group chains cross the 5-policy return stride once or twice), policies "
          "split into groups at random (including all-staged, single-policy and empty groups), 0-3 rules per policy and direction, "
-         "0-3 profiles (30% of cases allow Pass rules inside profiles), workload endpoints (admin up/down, VXLAN/IPIP from workloads allowed or not) and host endpoints (failsafe jump), "
+         "0-3 profiles (30% of cases allow Pass rules inside profiles), workload endpoints (admin up/down, VXLAN/IPIP from workloads allowed or not), host endpoints (failsafe jump) "
+         "and the forward chains of host endpoints (no profiles; allowed outright without tiers), "
          "ingress and egress, IPv4 and IPv6, iptables and nftables, 4 mark layouts, flow logs on/off, DROP/REJECT, filter allow action "
          "ACCEPT/RETURN, conntrack-invalid rule on/off; rules over a small universe of addresses/CIDRs/ports/IP sets with at most two "
          "positive match blocks (the C08 scratch-bit finding needs three); per case up to 40 probe packets: one aimed at each rule plus a "
